@@ -272,7 +272,9 @@ def rule_padding(ctx, rid):
         for t_ in subterms(conj):
             if t_[0] == 'call' and t_[1] == 'builtins.len' and len(t_[2]) == 1 and t_[2][0][0] == 'sub' and t_[2][0][1] == Xs \
                     and t_[2][0][2][0] == 'tuple' and len(t_[2][0][2][1]) == 2 and t_[2][0][2][1][0] == ('slice', NONE, NONE, NONE) \
-                    and is_c(t_[2][0][2][1][1]) and isinstance(t_[2][0][2][1][1][1], int):
+                    and is_c(t_[2][0][2][1][1]) and t_[2][0][2][1][1][1] in (0, -1) \
+                    and not isinstance(t_[2][0][2][1][1][1], bool):
+                # (the 2-D form of the signal is [samples x 1]: column 0 and column -1 are that column, no other exists)
                 colmap[t_] = ('call', 'builtins.len', (Xs,), ())
         if colmap:
             conj = _subst(conj, colmap)
@@ -740,13 +742,17 @@ def rule_parabola(ctx, rid):
             return seq(yv[2][0])
         return None
     ok = False
-    unread = None
+    unread = notx = None
     for e in ex:
         for x in subterms(e.value):
             if x[0] == 'call' and x[1] == CPE:
                 yv = dict(x[3]).get('y')
                 parts = rows_of(yv) if yv is not None else None
                 if parts is None:
+                    Xs = S(fe.params[0])
+                    if yv is not None and not any(t_[0] == 'sub' and t_[1] == Xs for t_ in subterms(yv)):
+                        notx = 'the ordinates handed to the parabola fit are %s, which holds no sample of X' % show(yv)[:60]
+                        continue
                     unread = show(yv)[:80] if yv is not None else 'no ordinate argument'
                     continue
                 X = S(fe.params[0])
@@ -755,6 +761,8 @@ def rule_parabola(ctx, rid):
                     [alg.poly(pt[2]) - alg.poly(loc) for pt in parts] == [alg.poly(C(-1)), alg.poly(C(0)), alg.poly(C(1))]
     if ok:
         ctx.passed(rid, fe, c4)
+    elif notx:
+        ctx.violation(rid, fe, c4, notx)
     elif unread:
         ctx.undecided(rid, fe, c4, 'cannot read the ordinate matrix ' + unread)
     else:
